@@ -63,7 +63,7 @@ StatsVerdict(e, c) ==
   IN  IF P \cap st.errs # {} THEN "ErrIffMismatch"
       ELSE IF e.stat[1] # RCount(st.rows, P) THEN "RCOUNT"
       ELSE IF e.stat[2] # sd THEN "SNVDP"
-      ELSE IF ~e.dp_is_int \/ e.stat[3] # RoundHalfEven(SumSeq(sd), c.n) THEN "DP"
+      ELSE IF ~e.dp_is_int \/ e.stat[3] \notin Nearest(SumSeq(sd), c.n) THEN "DP"
       ELSE IF e.stat[4] # RCalls(st.rows, P, al) THEN "RCALLS"
       ELSE IF {<<x[1], x[2]>> : x \in Range(e.bag)} # Uniq(st.rows, P, al) THEN "AlleleMatrix"
       ELSE IF {<<x[1], x[2]>> : x \in Range(e.uniq)} # Uniq(st.rows, P, al) THEN "Dedup"
